@@ -45,3 +45,46 @@ Proof.
   pose proof (circle_point_inj _ _ Ti Tj E) as H.
   apply Qlt_Rlt in B. lra.
 Qed.
+
+(* ------------------------------------------------------------------ strict convexity of the circle placement:
+   any three points with increasing parameters in [0,1) are strictly counter-clockwise, hence the border polygon
+   (parameters i/n in cyclic order) is strictly convex *)
+Definition det3 (p q r : R * R) : R :=
+  (fst q - fst p) * (snd r - snd p) - (snd q - snd p) * (fst r - fst p).
+
+Lemma circle_strictly_convex : forall a b c : R, 0 <= a -> a < b -> b < c -> c < 1 ->
+  0 < det3 (circle_point a) (circle_point b) (circle_point c).
+Proof.
+  intros a b c Ha Hab Hbc Hc. unfold det3, circle_point. cbn [fst snd].
+  set (A := 2 * PI * a). set (B := 2 * PI * b). set (C := 2 * PI * c).
+  pose proof PI_RGT_0 as Hpi.
+  rewrite (form2 B A), (form4 C A), (form4 B A), (form2 C A).
+  assert (E : sin ((C - B) / 2) = sin ((C + A) / 2) * cos ((B + A) / 2) - cos ((C + A) / 2) * sin ((B + A) / 2)).
+  { replace ((C - B) / 2) with ((C + A) / 2 - (B + A) / 2) by field. apply sin_minus. }
+  assert (P1 : 0 < sin ((B - A) / 2)).
+  { apply sin_gt_0; unfold A, B; nra. }
+  assert (P2 : 0 < sin ((C - A) / 2)).
+  { apply sin_gt_0; unfold A, C; nra. }
+  assert (P3 : 0 < sin ((C - B) / 2)).
+  { apply sin_gt_0; unfold B, C; nra. }
+  replace (-2 * sin ((B - A) / 2) * sin ((B + A) / 2) * (2 * cos ((C + A) / 2) * sin ((C - A) / 2)) -
+           2 * cos ((B + A) / 2) * sin ((B - A) / 2) * (-2 * sin ((C - A) / 2) * sin ((C + A) / 2)))
+    with (4 * sin ((B - A) / 2) * sin ((C - A) / 2) * sin ((C - B) / 2)) by (rewrite E; ring).
+  assert (0 < sin ((B - A) / 2) * sin ((C - A) / 2)) by (apply Rmult_lt_0_compat; assumption).
+  assert (0 < sin ((B - A) / 2) * sin ((C - A) / 2) * sin ((C - B) / 2)) by (apply Rmult_lt_0_compat; assumption).
+  lra.
+Qed.
+
+(* for the generated parameters *)
+Lemma circle_border_strictly_convex : forall n i j k : Z, (0 < n)%Z -> (0 <= i)%Z -> (i < j)%Z -> (j < k)%Z -> (k < n)%Z ->
+  0 < det3 (circle_point (Q2R (circle_turn n i))) (circle_point (Q2R (circle_turn n j))) (circle_point (Q2R (circle_turn n k))).
+Proof.
+  intros n i j k Hn Hi Hij Hjk Hk.
+  destruct (circle_params n i j Hn Hi Hij ltac:(lia)) as (A & B & _).
+  destruct (circle_params n j k Hn ltac:(lia) Hjk Hk) as (_ & C & D).
+  apply circle_strictly_convex.
+  - replace 0 with (Q2R 0) by (unfold Q2R; simpl; lra). now apply Qle_Rle.
+  - now apply Qlt_Rlt.
+  - now apply Qlt_Rlt.
+  - replace 1 with (Q2R 1) by (unfold Q2R; simpl; lra). now apply Qlt_Rlt.
+Qed.
